@@ -448,7 +448,9 @@ func runC13RefTCP(c *core.Ctx) {
 	l := simstream.Listen(&net.TCPAddr{IP: lip, Port: 4000})
 	wb := []int{0, 1 << 20}[t.Choose(2, "writebuf")]
 	c.Knob("writebuf", wb)
-	mux := ice.NewTCPMuxDefault(ice.TCPMuxParams{Listener: l, Logger: rig.Quiet().NewLogger("c13"), ReadBufferSize: 8, WriteBufferSize: wb})
+	alive := 2 * time.Second
+	mux := ice.NewTCPMuxDefault(ice.TCPMuxParams{Listener: l, Logger: rig.Quiet().NewLogger("c13"), ReadBufferSize: 8, WriteBufferSize: wb,
+		AliveDurationForConnFromStun: alive})
 	var clients []*simstream.Conn
 	c.Defer(func() {
 		for _, cl := range clients {
@@ -485,10 +487,41 @@ func runC13RefTCP(c *core.Ctx) {
 	auxWanted := t.Bias(1, 2, "aux-stream-wdl-fault")
 	c.Knob("auxStreamWithDeadlineFault", auxWanted)
 	firstGet := true
+	// In a third of the runs the peer is first: its STUN request creates a provisional connection (with a
+	// lifetime) that the first GetConnByUfrag adopts; further streams join afterwards and the provisional
+	// lifetime passes - the adopted connection lives as long as a handle is open.
+	peerFirst := t.Bias(1, 3, "peer-first")
+	c.Knob("peerFirst", peerFirst)
+	var early []byte
+	if peerFirst {
+		if cur = dial(); cur == nil {
+			return
+		}
+		seq++
+		early = tsBinding(stun.MethodBinding, stun.ClassRequest, seq, &uname, 0)
+		_, _ = cur.Write(tsEnc(early))
+		synctest.Wait()
+		c.Fault("provisional-connection-adopted")
+	}
 	// clientGot reads what the mux wrote to the client so far (non-blocking view of its receive queue)
 	r := &c13Refcount{c: c, kind: "tcp",
 		get: func() (net.PacketConn, error) {
 			pc, err := mux.GetConnByUfrag("ufa", false, lip)
+			if err == nil && firstGet && early != nil {
+				buf := make([]byte, 2048)
+				if n, _, rerr := pc.ReadFrom(buf); rerr != nil || !bytes.Equal(buf[:n], early) {
+					c.Failf("harness/c13-early", "the request that created the provisional connection was not delivered after adoption: n=%d err=%v", n, rerr)
+					return pc, err
+				}
+			}
+			if err == nil && firstGet && peerFirst {
+				defer func() {
+					// the provisional lifetime passes with the handle open (and, with the auxiliary stream, after
+					// another TCP connection joined the adopted connection)
+					time.Sleep(alive + time.Second)
+					synctest.Wait()
+				}()
+			}
 			if err != nil || !firstGet || !auxWanted {
 				firstGet = false
 				return pc, err
